@@ -34,14 +34,18 @@ TypeLists == << <<VT("cpu", "ms"), VT("mem", "B")>>,
                 <<VT("cpu", "ms"), VT("mem", "kB")>>,        \* coarser unit in column 2
                 <<VT("mem", "B"), VT("cpu", "ms")>>,         \* permuted
                 <<VT("cpu", "ms"), VT("extra", "B"), VT("mem", "B")>>,   \* partially overlapping
-                <<VT("cpu", "us"), VT("mem", "B")>> >>                   \* finest unit
+                <<VT("cpu", "us"), VT("mem", "B")>>,                     \* finest unit
+                <<VT("extra", "B"), VT("mem", "B"), VT("cpu", "ms")>> >>  \* three types, rotated against list 5
 P(tl, ss) == [st |-> TypeLists[tl], samples |-> ss]
 S2(k, v) == Smp(Stk[k], v, <<>>, <<>>)
 \* values per type list arity
 V2 == { <<5, 0>>, <<0, 2>>, <<1, 3>>, <<2, 2>> }
 One(tl) == IF tl = 5 THEN { <<S2(k, <<v[1], 7, v[2]>>)>> : k \in {1, 2}, v \in V2 }
+           ELSE IF tl = 7 THEN { <<S2(k, <<7, v[2], v[1]>>)>> : k \in {1, 2}, v \in V2 }
            ELSE { <<S2(k, v)>> : k \in {1, 2}, v \in V2 }
-Two(tl) == IF tl = 5 THEN { <<S2(1, <<1, 7, 3>>), S2(2, <<5, 7, 0>>)>> } ELSE { <<S2(1, <<1, 3>>), S2(2, <<5, 0>>)>>, <<S2(2, <<0, 2>>), S2(3, <<2, 2>>)>> }
+Two(tl) == IF tl = 5 THEN { <<S2(1, <<1, 7, 3>>), S2(2, <<5, 7, 0>>)>> }
+           ELSE IF tl = 7 THEN { <<S2(1, <<9, 3, 1>>), S2(2, <<7, 0, 5>>)>> }
+           ELSE { <<S2(1, <<1, 3>>), S2(2, <<5, 0>>)>>, <<S2(2, <<0, 2>>), S2(3, <<2, 2>>)>> }
 Profs(tl) == { P(tl, ss) : ss \in One(tl) \cup Two(tl) }
 AnyProf == UNION { Profs(tl) : tl \in DOMAIN TypeLists }
 BaseProf == Profs(1) \cup Profs(2) \cup Profs(4)
@@ -58,6 +62,11 @@ Cases(d) ==
              a \in { P(1, <<S2(1, <<1, 3>>), S2(2, <<1, 1>>)>>) },
              b \in { P(1, <<S2(3, <<4, 8>>)>>), P(1, <<S2(1, <<6, 4>>)>>), P(1, <<S2(2, <<2, 2>>), S2(3, <<2, 6>>)>>) } }
     \cup { [srcs |-> <<P(1, <<S2(1, <<5, 0>>)>>)>>, bases |-> <<P(1, <<S2(2, <<10, 7>>)>>)>>, mode |-> "base", norm |-> TRUE] }
+    \* three shared sample types listed in rotated order by the second profile / the base
+    \cup { [srcs |-> <<a, b>>, bases |-> <<>>, mode |-> "plain", norm |-> FALSE] : a \in Profs(5), b \in Profs(7) }
+    \cup { [srcs |-> <<a>>, bases |-> <<b>>, mode |-> m, norm |-> FALSE] : a \in Profs(5), b \in Profs(7), m \in {"base", "diff_base"} }
+    \* -normalize against a base whose total in one column is zero: that column of the source is scaled to nothing
+    \cup { [srcs |-> <<P(1, <<S2(1, <<1, 3>>), S2(2, <<1, 1>>)>>)>>, bases |-> <<P(1, <<S2(3, <<4, 0>>)>>)>>, mode |-> m, norm |-> TRUE] : m \in {"base", "diff_base"} }
     \* three units in the order coarse, finest, intermediate
     \cup { [srcs |-> <<P(2, <<S2(1, a)>>), P(6, <<S2(k, b)>>), P(1, <<S2(1, <<1, 3>>)>>)>>, bases |-> <<>>, mode |-> "plain", norm |-> FALSE] :
              a \in {<<1, 3>>, <<2, 2>>}, b \in {<<5, 0>>, <<1, 3>>, <<7, 1>>}, k \in {1, 2} }
